@@ -25,7 +25,10 @@ AllDec = z3.Function('AllDecimal', z3.StringSort(), z3.BoolSort())
 TRUSTED = ['str: isdigit/isdecimal/isalpha/isspace on one character are uninterpreted predicates constrained by CPython facts '
            '(ASCII classes exact; isdecimal => isdigit; int(s) succeeds iff every character isdecimal); '
            'z3 sequence theory for slicing/concatenation/length',
-           'line/column bookkeeping of ParseState is not verified beyond lineno >= 1, colno >= 1 (checked at run time by the stand-in)']
+           'line / column: lineno == LineAt(stream, sidx) and colno == ColAt(stream, sidx) is an invariant proved for skip_filler / take (defining equations of LineAt / ColAt '
+           'instantiated at the index moved over), carried through every scanner and combinator contract, and every syntax error carries the pair of some index '
+           '0 <= i <= len(text); that such a pair lies inside the text (line <= number of lines, column <= length of that line + 1) is an induction over i on paper, '
+           'checked at run time by the stand-in']
 
 
 class W(World):
@@ -60,6 +63,33 @@ def world():
     return W()
 
 
+# ---- line / column bookkeeping as a ghost invariant ---------------------------------------------------------------------
+# LineAt(s, i) / ColAt(s, i): the human-readable position of index i of text s, DEFINED by
+#   LineAt(s,0) = ColAt(s,0) = 1;  s[i] == '\n' -> LineAt(s,i+1) = LineAt(s,i)+1, ColAt(s,i+1) = 1;  else LineAt(s,i+1) = LineAt(s,i), ColAt(s,i+1) = ColAt(s,i)+1
+# (instances of the defining equations are added where a unit moves the position; LineAt, ColAt >= 1 follows by induction and is part of the theory).
+# Invariant of ParseState: lineno == LineAt(stream, sidx) and colno == ColAt(stream, sidx).  Lemma (induction on i, paper): LineAt(s,i) <= 1 + number of line breaks of s
+# and ColAt(s,i) <= 1 + length of line LineAt(s,i), i.e. a position that satisfies the invariant for some 0 <= i <= len(s) lies inside the text.
+LineAt = z3.Function('LineAt', z3.StringSort(), z3.IntSort(), z3.IntSort())
+ColAt = z3.Function('ColAt', z3.StringSort(), z3.IntSort(), z3.IntSort())
+
+
+def bk(o, stream):
+    f = o.fields
+    return z3.And(f['lineno'] == LineAt(stream, f['sidx']), f['colno'] == ColAt(stream, f['sidx']))
+
+
+def bk_step(I, stream, i):
+    """the defining equations at index i (and the base case)"""
+    i = z3_of(i)
+    c = z3.SubString(stream, i, 1)
+    nl = c == z3.StringVal('\n')
+    I.ctx.assume(z3.And(LineAt(stream, 0) == 1, ColAt(stream, 0) == 1))
+    I.ctx.assume(z3.Implies(z3.And(i >= 0, i < z3.Length(stream)),
+                            z3.And(LineAt(stream, i + 1) == z3.If(nl, LineAt(stream, i) + 1, LineAt(stream, i)),
+                                   ColAt(stream, i + 1) == z3.If(nl, 1, ColAt(stream, i) + 1),
+                                   LineAt(stream, i) >= 1, ColAt(stream, i) >= 1, LineAt(stream, i + 1) >= 1, ColAt(stream, i + 1) >= 1)))
+
+
 def mk_state(I, tag=''):
     ctx = I.ctx
     cls = source.module(PARSER).classes['ParseState']
@@ -67,6 +97,7 @@ def mk_state(I, tag=''):
     sidx = ctx.fresh(tag + 'sidx', 'int')
     lineno, colno = ctx.fresh(tag + 'lineno', 'int'), ctx.fresh(tag + 'colno', 'int')
     ctx.assume(z3.And(0 <= sidx, sidx <= z3.Length(stream), lineno >= 1, colno >= 1))
+    ctx.assume(z3.And(lineno == LineAt(stream, sidx), colno == ColAt(stream, sidx)))
     o = Obj(cls, dict(stream=stream, sidx=sidx, lineno=lineno, colno=colno, stack=[], has_error=False,
                       current_error=None, debug=False, root='RINGInput', rules={}), origin='param')
     return o, stream, sidx
@@ -74,7 +105,7 @@ def mk_state(I, tag=''):
 
 def pos_ok(o, stream):
     f = o.fields
-    return z3.And(0 <= f['sidx'], f['sidx'] <= z3.Length(stream), f['lineno'] >= 1, f['colno'] >= 1)
+    return z3.And(0 <= f['sidx'], f['sidx'] <= z3.Length(stream), f['lineno'] >= 1, f['colno'] >= 1, bk(o, stream))
 
 
 def havoc_pos(I, o, stream, tag):
@@ -84,13 +115,24 @@ def havoc_pos(I, o, stream, tag):
     ctx.assume(pos_ok(o, stream))
 
 
+def check_scan(I, out, o, stream, raises=None, returns=None):
+    """check_outcome + the position clause of the property: a syntax error carries the line / column of the index at which it was raised"""
+    check_outcome(I, out, raises=raises, returns=returns)
+    if out.kind == 'raise' and out.value.cls.name == 'RINGSyntaxError':
+        e = out.value.fields
+        ok = all(k_ in e for k_ in ('lineno', 'colno'))
+        I.ctx.oblige('the syntax error carries the line and column of an index of the text (0 <= index <= length)',
+                     z3.And(z3_of(e['lineno']) == LineAt(stream, o.fields['sidx']), z3_of(e['colno']) == ColAt(stream, o.fields['sidx']),
+                            0 <= o.fields['sidx'], o.fields['sidx'] <= z3.Length(stream)) if ok else z3.BoolVal(False), site='stream.error')
+
+
 def u_skip_filler(I):
     ctx = I.ctx
     o, stream, sidx0 = mk_state(I)
     I.world.while_specs[(PARSER, 'ParseState.skip_filler', 0)] = loops.while_rule(
         'filler',
-        lambda I_, env, tag: (havoc_pos(I_, o, stream, tag), ctx.assume(o.fields['sidx'] >= sidx0)),
-        lambda I_, env: [('0 <= sidx <= len(stream), line/column >= 1', pos_ok(o, stream)),
+        lambda I_, env, tag: (havoc_pos(I_, o, stream, tag), ctx.assume(o.fields['sidx'] >= sidx0), bk_step(I_, stream, o.fields['sidx'])),
+        lambda I_, env: [('0 <= sidx <= len(stream), line/column >= 1 and they are the line / column of sidx', pos_ok(o, stream)),
                          ('position never moves backwards', o.fields['sidx'] >= sidx0)],
         lambda I_, env: z3.Length(stream) - o.fields['sidx'])
     out = run_target(I, PARSER, 'ParseState.skip_filler', [], self_obj=o)
@@ -132,9 +174,15 @@ def u_take(I):
         o.fields['lineno'] = ctx.fresh('lineno_j', 'int')
         o.fields['colno'] = ctx.fresh('colno_j', 'int')
         ctx.assume(z3.And(o.fields['lineno'] >= 1, o.fields['colno'] >= 1))
+        # after j characters of the slice: the line / column of index sidx0 + j
+        ctx.assume(z3.And(o.fields['lineno'] == LineAt(stream, sidx0 + j), o.fields['colno'] == ColAt(stream, sidx0 + j)))
+        bk_step(I_, stream, sidx0 + j)
+        ctx.assume(z3.Implies(z3.And(j >= 0, j < n), z3.SubString(z3.SubString(stream, sidx0, n), j, 1) == z3.SubString(stream, sidx0 + j, 1)))   # character j of a slice (string fact)
         env.local.pop('chr', None)
     I.world.loop_specs[(PARSER, 'ParseState.take', 0)] = loops.for_rule(
-        'chars', st, lambda I_, j, env, it: [('line/column stay >= 1', z3.And(o.fields['lineno'] >= 1, o.fields['colno'] >= 1))])
+        'chars', st, lambda I_, j, env, it: [('line/column stay >= 1', z3.And(o.fields['lineno'] >= 1, o.fields['colno'] >= 1)),
+                                             ('after j characters line / column are those of index sidx + j',
+                                              z3.And(o.fields['lineno'] == LineAt(stream, sidx0 + j), o.fields['colno'] == ColAt(stream, sidx0 + j)))])
 
     def skip(I_, a, k):
         s0 = o.fields['sidx']
@@ -169,7 +217,7 @@ def u_String(I):
         lambda I_, env: z3.Length(stream) - (sidx0 + z3_of(env.local['nn'])))
     out = run_target(I, PARSER, 'String.__call__', [o, output], self_obj=p)
     took = any(e[0] == 'take' for e in ctx.effects)
-    check_outcome(I, out, raises={'RINGSyntaxError': z3.BoolVal(not took)}, returns=lambda r: [
+    check_scan(I, out, o, stream, raises={'RINGSyntaxError': z3.BoolVal(not took)}, returns=lambda r: [
         ('progress: an identifier consumes at least one character', o.fields['sidx'] >= sidx0 + 1),
         ('position invariant', pos_ok(o, stream)),
         ('one token appended', z3.BoolVal(len(output) == 1))])
@@ -200,7 +248,7 @@ def u_Digit(I):
     output = []
     out = run_target(I, PARSER, 'Digit.__call__', [o, output], self_obj=p)
     took = any(e[0] == 'take' for e in ctx.effects)
-    check_outcome(I, out, raises={'RINGSyntaxError': z3.BoolVal(not took)}, returns=lambda r: [
+    check_scan(I, out, o, stream, raises={'RINGSyntaxError': z3.BoolVal(not took)}, returns=lambda r: [
         ('progress: a digit consumes one character', o.fields['sidx'] >= sidx0 + 1),
         ('position invariant', pos_ok(o, stream))])
     return {'inputs': {}}
@@ -261,7 +309,7 @@ def u_Number(I):
     if outv is None:
         outv = ctx.ghost.get('number_out')
     too_long = (z3.Length(outv) > MAX_DIGITS) if (outv is not None and took) else z3.BoolVal(False)
-    check_outcome(I, out, raises={'RINGSyntaxError': z3.Or(z3.BoolVal(not took), too_long)}, returns=lambda r: [
+    check_scan(I, out, o, stream, raises={'RINGSyntaxError': z3.Or(z3.BoolVal(not took), too_long)}, returns=lambda r: [
         ('progress: a number consumes at least one character', o.fields['sidx'] >= sidx0 + 1),
         ('position invariant', pos_ok(o, stream)),
         ('the number handed to the tree readers has at most %d digits: the readers add such numbers up, mix them with 1.5 (float) and print them, and an int of more than 308 digits '
@@ -307,7 +355,7 @@ def u_EOS(I):
     cls = source.module(PARSER).classes['EOS']
     p = Obj(cls, {}, 'param')
     out = run_target(I, PARSER, 'EOS.__call__', [o, []], self_obj=p)
-    check_outcome(I, out, raises={'RINGSyntaxError': sidx0 < z3.Length(stream)}, returns=lambda r: [
+    check_scan(I, out, o, stream, raises={'RINGSyntaxError': sidx0 < z3.Length(stream)}, returns=lambda r: [
         ('end-of-input succeeds only when every character has been consumed', sidx0 == z3.Length(stream))])
     return {'inputs': {}}
 
@@ -323,7 +371,7 @@ def lit_unit(clsname):
         output = []
         out = run_target(I, PARSER, clsname + '.__call__', [o, output], self_obj=p)
         took = any(e[0] == 'take' for e in ctx.effects)
-        check_outcome(I, out, raises={'RINGSyntaxError': z3.BoolVal(not took)}, returns=lambda r: [
+        check_scan(I, out, o, stream, raises={'RINGSyntaxError': z3.BoolVal(not took)}, returns=lambda r: [
             ('progress: a literal consumes its (non-empty) text', o.fields['sidx'] >= sidx0 + len(tok)),
             ('position invariant', pos_ok(o, stream)),
             ('token recorded iff it is a Literal', z3.BoolVal(output == ([tok] if clsname == 'Literal' else [])))])
